@@ -8,24 +8,25 @@ import PgBifrost.Proofs.Parser.RoundTrip
 (`Model/TestDecoding.lean`) is the reference encoder of `contrib/test_decoding`, `view` the faithful
 decoding, `WF` the decidable well-formedness of a change.
 
-The full statement
+The model mirrors `parselogical.go` with the repair of finding F4 (the `B` of a bit-string literal
+`B'1010'` is dropped together with the quotes). The full round trip
 
     theorem parse_render (m : Change) (hwf : WF m) : parseIdx (render m) = .ok (view m)
 
-is FALSE for the unchanged code: a bit-string literal `B'1010'` is decoded as value `'1010`
-(finding F4, `parse_render_bits_witness`). What is proved instead, for ALL well-formed changes:
-`parse_render_f4` — the decoder returns exactly `viewF4 m`, i.e. `view m` with every bit-string
-value replaced by `'` + digits; hence `parse_render_partial` (no bit strings ⇒ faithful). All stages
-(BEGIN/COMMIT, prelude incl. quoted identifiers, TRUNCATE, columns, old-key/new-tuple sections,
-`(no-tuple-data)`) are covered; nothing else is left open. `WF` also excludes the empty printed
-tuple (relation without columns), which the unchanged decoder rejects (`parse_empty_tuple_witness`).
+holds for ALL well-formed changes, bit strings included. (Before the repair the statement FAILED for
+bit strings: `B'1010'` was decoded as value `'1010`, quoted — finding F4; only a version restricted to
+changes without bit-string values could be proved.) All stages (BEGIN/COMMIT, prelude incl. quoted
+identifiers, TRUNCATE, columns, old-key/new-tuple sections, `(no-tuple-data)`) are covered; nothing
+else is left open. `WF` still excludes the empty printed tuple (relation without columns), which
+the decoder rejects (`parse_empty_tuple_witness`, known finding "empty_tuple").
 -/
 namespace PgBifrost.Props.C09
 open PgBifrost.Parser PgBifrost.TestDecoding
 
-/-- **Never panics, always terminates**: for every byte string no Go slice expression of the
-decoder is out of range (`ParsePrelude` + `ParseColumns`); termination is the well-founded
-recursion of `Parser.loop` itself (`len + 1 - i` decreases). -/
+/-- **Never panics, always terminates**: for every byte string no Go slice expression and no index
+expression (`message[startStr]`, new with the repair of F4) of the decoder is out of range
+(`ParsePrelude` + `ParseColumns`); termination is the well-founded recursion of `Parser.loop`
+itself (`len + 1 - i` decreases). -/
 theorem parse_total (bytes : List UInt8) : parseIdx bytes ≠ .panic :=
   parseIdx_ne_panic bytes
 
@@ -40,6 +41,8 @@ theorem parse_never_null_state (bytes : List UInt8) : parseIdx bytes ≠ .err .n
   parseIdx_ne_null bytes
 
 example : parseIdx [116, 97, 98, 108, 101, 32, 58, 32, 58, 32, 91, 93, 58, 39] ≠ .panic := parse_total _
+-- `table : : []:B''` — the shortest quoted token starting with `B` (reaches `message[startStr]` and the empty cut)
+example : parseIdx [116, 97, 98, 108, 101, 32, 58, 32, 58, 32, 91, 93, 58, 66, 39, 39] ≠ .panic := parse_total _
 
 /-- stage BEGIN / COMMIT (no hypothesis) -/
 theorem parse_render_txn (x : Nat) :
@@ -52,9 +55,11 @@ theorem parse_render_truncate (rs : List Rel) (restartSeqs cascade : Bool) :
     parseIdx (render (.truncate rs restartSeqs cascade)) = .ok (view (.truncate rs restartSeqs cascade)) :=
   parse_truncate rs restartSeqs cascade
 
-/-- **What the unchanged decoder computes for every well-formed change** (bit strings included):
-`viewF4 m` = `view m` except that a bit-string value `B'1010'` comes out as `'1010`, quoted. -/
-theorem parse_render_f4 (m : Change) (hwf : WF m) : parseIdx (render m) = .ok (viewF4 m) := by
+/-- **Round trip** for every well-formed change, bit strings included: relation, operation,
+transaction id, every column's printed name, printed type, value with quote doubling undone (for a
+bit string `B'1010'`: the digits `1010`), quoted flag, old-key / new-tuple placement and `NoTupleData`
+are recovered exactly. (Before the repair of F4 this failed for bit strings: value `'1010`.) -/
+theorem parse_render (m : Change) (hwf : WF m) : parseIdx (render m) = .ok (view m) := by
   cases m with
   | begin x => exact parse_begin x
   | commit x => exact parse_commit x
@@ -64,13 +69,6 @@ theorem parse_render_f4 (m : Change) (hwf : WF m) : parseIdx (render m) = .ok (v
     exact parse_dml _ _ old new (Scan.rel r) opInert_UPDATE (by decide) h.1 h.2
   | delete r old => exact parse_dml _ _ none old (Scan.rel r) opInert_DELETE (by decide) rfl hwf
   | truncate rs a b => exact parse_truncate rs a b
-
-/-- **Round trip** for every well-formed change without bit-string values: relation, operation,
-transaction id, every column's printed name, printed type, value with quote doubling undone,
-quoted flag, old-key / new-tuple placement and `NoTupleData` are recovered exactly. -/
-theorem parse_render_partial (m : Change) (hwf : WF m) (hnb : NoBits m) :
-    parseIdx (render m) = .ok (view m) := by
-  rw [parse_render_f4 m hwf, viewF4_eq m hnb]
 
 /-- a realistic UPDATE: quoted and keyword identifiers, schema-qualified array type, old-key section,
 quotes / brackets / colons / newline / UTF-8 inside text, `null`, `unchanged-toast-datum` -/
@@ -85,28 +83,32 @@ def exampleUpdate : Change :=
            ⟨[101], ⟨.builtin [116, 101, 120, 116], false⟩, .text []⟩])
 
 example : parseIdx (render exampleUpdate) = .ok (view exampleUpdate) :=
-  parse_render_partial exampleUpdate (by decide) (by decide)
+  parse_render exampleUpdate (by decide)
 
 example : parseIdx (render (.insert ⟨[115], [116]⟩ none)) = .ok (view (.insert ⟨[115], [116]⟩ none)) :=
-  parse_render_partial _ (by decide) (by decide)
+  parse_render _ (by decide)
 
 /-- `table public.t: INSERT: b[bit varying]:B'1010'` -/
 def bitsChange : Change :=
   .insert ⟨[112, 117, 98, 108, 105, 99], [116]⟩
     (some [⟨[98], ⟨.builtin [98, 105, 116, 32, 118, 97, 114, 121, 105, 110, 103], false⟩, .bits [49, 48, 49, 48]⟩])
 
-/-- **F4**: the full round trip fails on the unchanged code — a well-formed change with a bit string
-is decoded to something else than `view` (value `'1010` instead of `1010`). -/
-theorem parse_render_bits_witness :
-    WF bitsChange ∧ parseIdx (render bitsChange) ≠ .ok (view bitsChange) ∧
-    parseIdx (render bitsChange) = .ok (viewF4 bitsChange) := by
-  have hwf : WF bitsChange := by decide
-  refine ⟨hwf, ?_, parse_render_f4 _ hwf⟩
-  rw [parse_render_f4 _ hwf]
-  decide
+/-- bit strings round-trip: `B'1010'` ↦ value `1010`, quoted; the empty bit string `B''` ↦ empty value
+(before the repair of F4: `'1010` and `'`) -/
+example : parseIdx (render bitsChange) = .ok (view bitsChange) := parse_render bitsChange (by decide)
 
-/-- **New finding "empty_tuple"**: for a relation without columns test_decoding prints an empty tuple
-(`table public.t: INSERT:`); the unchanged decoder answers `invalid character` for every such INSERT
+example : parseIdx (render bitsChange) =
+    .ok { relation := [112, 117, 98, 108, 105, 99, 46, 116], operation := bINSERT,
+          cols := [([98], { value := [49, 48, 49, 48],
+                            type := [98, 105, 116, 32, 118, 97, 114, 121, 105, 110, 103], quoted := true })] } := by
+  rw [parse_render bitsChange (by decide)]; decide
+
+example : parseIdx (render (.insert ⟨[115], [116]⟩ (some [⟨[98], ⟨.builtin [98, 105, 116], false⟩, .bits []⟩]))) =
+    .ok (view (.insert ⟨[115], [116]⟩ (some [⟨[98], ⟨.builtin [98, 105, 116], false⟩, .bits []⟩]))) :=
+  parse_render _ (by decide)
+
+/-- **Finding "empty_tuple"**: for a relation without columns test_decoding prints an empty tuple
+(`table public.t: INSERT:`); the decoder answers `invalid character` for every such INSERT
 and DELETE, whatever the relation — so `WF` has to exclude it. -/
 theorem parse_empty_tuple_witness (r : Rel) :
     parseIdx (render (.insert r (some []))) = .err .invalidChar ∧
